@@ -1956,7 +1956,7 @@ def same_bits(got, want) -> Optional[str]:
     return None
 
 
-SPECIAL_FLOATS = [0.0, -0.0, 1.0, -1.0, 2.0, 0.5, float("inf"), float("-inf"), float("nan"), 3.0, -2.0]
+SPECIAL_FLOATS = [0.0, -0.0, 1.0, -1.0, 2.0, 0.5, float("inf"), float("-inf"), float("nan"), 3.0, -2.0, 1e-45, -1e-45]
 
 
 def gen_attr_program(rng: random.Random) -> dict:
